@@ -1251,6 +1251,59 @@ def _value_defs(fn, stmt, expr, rd, defs_at, depth=0):
   return out
 
 
+def _value_defs_fields(mod, fn, stmt, expr, rd, defs_at, depth=0):
+  """_value_defs, field-sensitive: `rec.<field>` / `rec[<int>]` where the local
+  `rec` is bound (in `fn`, after helper inlining) to the construction of a
+  NamedTuple / plain dataclass of the module, or to a tuple display, stands
+  for the constructor argument stored in that field (rules/_record_fields.py).
+  A `rec` bound to a call of a function / class of the module in any other
+  shape is an AnalysisError; a `rec` that is not such a local leaves the
+  expression as it stands."""
+  from rules import _record_fields as RF
+  sel = RF.selector_of(expr)
+  if sel is None:
+    return _value_defs(fn, stmt, expr, rd, defs_at, depth)
+  base, selector = sel
+  if not defs_at(rd, stmt, base.id):
+    return [expr]
+  vals = _value_defs(fn, stmt, base, rd, defs_at, depth + 1)
+  def local_thing(v):
+    return isinstance(v, ast.Call) and isinstance(v.func, ast.Name) and (
+        v.func.id in mod.functions or RF.record_fields(mod, v.func.id) is not None)
+  if not any(v is None or local_thing(v) or isinstance(v, ast.Tuple) for v in vals):
+    return [expr]
+  out = []
+  params = {a.arg for a in fn.args.args + fn.args.kwonlyargs + fn.args.posonlyargs}
+  for v in vals:
+    arg = None
+    if v is not None and local_thing(v) and v.func.id not in mod.functions:
+      if v.func.id in params or any(
+          isinstance(n, ast.Name) and n.id == v.func.id and isinstance(n.ctx, ast.Store)
+          for n in ast.walk(fn)):
+        raise AnalysisError(f"{fn.name}: `{v.func.id}` is rebound locally")
+      arg = RF.ctor_field(mod, v, selector)
+    elif isinstance(v, ast.Tuple) and isinstance(selector, int):
+      arg = RF.tuple_item(v, selector)
+    if arg is None:
+      raise AnalysisError(
+          f"{fn.name}: `{src(expr)}` reads a field of a value built as "
+          f"`{src(v)[:80] if v is not None else '<unknown>'}`, which is not a "
+          "NamedTuple/dataclass/tuple construction the rule can look into")
+    # the argument is evaluated where the record is built: resolve its names
+    # at that statement
+    bind = [d for d in defs_at(rd, stmt, base.id)]
+    at = bind[0] if len(bind) == 1 else None
+    if at is None or not any(n is v for n in ast.walk(at)):
+      if any(isinstance(n, ast.Name) and defs_at(rd, stmt, n.id) for n in ast.walk(arg)):
+        raise AnalysisError(
+            f"{fn.name}: `{base.id}` is built on several paths from local names")
+      out.append(arg)
+    else:
+      out.extend(_value_defs_fields(mod, fn, at, arg, rd, defs_at, depth + 1))
+  RF.require_field_reads_only(fn, base.id)
+  return out
+
+
 def _module_const(mod, node):
   """The value of a module-level name that is bound exactly once and never
   declared global in a function (a named constant); otherwise the node."""
@@ -1392,7 +1445,7 @@ def serialisation_instances(ctx):
       a = ctor.args[pos]
     if a is None:
       raise AnalysisError(f"SerializeAst: argument {fld} not found")
-    vals = _value_defs(f, cstmt, a, rd, defs_at)
+    vals = _value_defs_fields(smod, f, cstmt, a, rd, defs_at)
     if any(v is None or (isinstance(v, ast.Call) and dotted(v.func) in smod.functions)
            for v in vals):
       raise AnalysisError(
